@@ -56,7 +56,7 @@ def fieldsCovered : Bool :=
   structDecls.all fun sd => sd.fields.all fun f =>
     (tableOf sd.name).any (fun e => e.2 == f.name) || knownMissingFields.contains (sd.name, f.name)
 
-theorem tables_cover_fields : fieldsCovered = true := by decide
+theorem tables_cover_fields : fieldsCovered = true := by decide +kernel
 
 /-- Every struct with a table has a definition, and every definition read has a table. -/
 theorem tables_match_definitions :
@@ -79,7 +79,7 @@ def keysUnique : Bool :=
   enumTables.all (fun t => decide (t.2.Nodup)) &&
   decide ((paramTables.map (·.1)).Nodup) && decide ((enumTables.map (·.1)).Nodup)
 
-theorem keys_unique : keysUnique = true := by decide
+theorem keys_unique : keysUnique = true := by decide +kernel
 
 /-- Each entry's key is the name of the member it writes, the member exists in the struct
     definition and is of a settable kind, and each listed enumerator exists; no key is empty or
@@ -93,7 +93,7 @@ def entriesWellFormed : Bool :=
     !n.isEmpty &&
     (((enumDecls.find? (·.name == t.1)).map (·.enumerators)).getD []).any (·.1 == n))
 
-theorem entries_well_formed : entriesWellFormed = true := by decide
+theorem entries_well_formed : entriesWellFormed = true := by decide +kernel
 
 /-- Aliases resolve: the struct has a table, the alias target is a key of it, the alias is
     neither a key nor another alias, and it is the ASCII transliteration of its target
@@ -587,11 +587,12 @@ theorem vec_pieces_complete (value : Str) :
     (pieces (value.count ',' + 1) value).length = value.count ',' + 1 ∧
     ∀ p ∈ pieces (value.count ',' + 1) value, ',' ∉ p := by
   obtain ⟨h1, h2⟩ := Proofs.C18.pieces_complete (value.count ',') value rfl
-  refine ⟨h1, ?_, h2⟩
-  generalize value.count ',' + 1 = n
-  induction n generalizing value with
-  | zero => rfl
-  | succ n ih => simp [pieces, ih]
+  have hlen : ∀ (n : Nat) (s : Str), (pieces n s).length = n := by
+    intro n
+    induction n with
+    | zero => intro s; rfl
+    | succ n ih => intro s; simp [pieces, ih]
+  exact ⟨h1, hlen _ _, h2⟩
 
 /-! ### Rejections -/
 
@@ -679,6 +680,83 @@ theorem parseInt_consumes (lo hi : Int) : FromCharsConsumes (parseInt lo hi) := 
           | (have h2 : (List.tail s).length ≤ s.length := by simp
              simp only [List.drop_one] at h1 ⊢
              omega)
+
+theorem digitsVal_toDigits (n : Nat) : digitsVal (Nat.toDigits 10 n) = n := by
+  have h := @Nat.ofDigitChars_ten_toDigits n
+  rw [Nat.ofDigitChars_eq_foldl] at h
+  unfold digitsVal digitVal
+  have hf : (fun (a : Nat) (c : Char) => a * 10 + (c.toNat - '0'.toNat)) =
+      (fun (sofar : Nat) (c : Char) => 10 * sofar + (c.toNat - '0'.toNat)) := by
+    funext a c; rw [Nat.mul_comm]
+  rw [hf]; exact h
+
+theorem takeWhile_all {α} (p : α → Bool) (l : List α) (h : ∀ x ∈ l, p x = true) :
+    l.takeWhile p = l ∧ l.dropWhile p = [] := by
+  have h1 := Proofs.C18.takeWhile_append_of_all p l [] h
+  have h2 := Proofs.C18.dropWhile_append_of_all p l [] h
+  simpa using And.intro h1 h2
+
+/-- Decimal text of an integer, as `std::to_chars` / `operator<<` / `toString` write it. -/
+def decimal : Int → Str
+  | .ofNat n => Nat.toDigits 10 n
+  | .negSucc n => '-' :: Nat.toDigits 10 (n + 1)
+
+example : decimal (-128) = "-128".toList ∧ decimal 4294967295 = "4294967295".toList ∧
+    decimal 0 = "0".toList ∧ ∀ v : Int, (toString v).toList = decimal v := by
+  refine ⟨by decide, by decide +kernel, by decide, fun v => ?_⟩
+  cases v with
+  | ofNat n => simp [decimal, toString, Int.repr, Nat.toList_repr]
+  | negSucc n => simp [decimal, toString, Int.repr, Nat.toList_repr, String.toList_append]
+
+/-- **Integers exactly**: for every value `v` of the integral type (`lo ≤ v ≤ hi`), integer
+    `from_chars` on the decimal text of `v` returns `v` and consumes everything. -/
+theorem parseInt_decimal (lo hi v : Int) (hlo : lo ≤ v) (hhi : v ≤ hi) :
+    parseInt lo hi (decimal v) = .ok v [] := by
+  cases v with
+  | ofNat n =>
+    have hd : ∀ c ∈ Nat.toDigits 10 n, Char.isDigit c = true :=
+      fun c hc => Nat.isDigit_of_mem_toDigits (by decide) (by decide) hc
+    obtain ⟨ht, hdr⟩ := takeWhile_all Char.isDigit _ hd
+    have hne : Nat.toDigits 10 n ≠ [] := Nat.toDigits_ne_nil
+    have hhead : ((Nat.toDigits 10 n).head? == some '-') = false := by
+      cases hl : Nat.toDigits 10 n with
+      | nil => exact absurd hl hne
+      | cons c t =>
+        have : Char.isDigit c = true := hd c (by rw [hl]; simp)
+        simp only [List.head?_cons, beq_eq_false_iff_ne, ne_eq, Option.some.injEq]
+        rintro rfl
+        simp [Char.isDigit] at this
+    have hE : (Nat.toDigits 10 n).isEmpty = false := by
+      cases hl : Nat.toDigits 10 n with
+      | nil => exact absurd hl hne
+      | cons _ _ => rfl
+    simp only [decimal, parseInt, hhead, Bool.and_false, Bool.false_eq_true, ↓reduceIte, ht, hdr, hE,
+      digitsVal_toDigits]
+    have h1 : ¬ ((n : Int) < lo) := by simpa using hlo
+    have h2 : ¬ (hi < (n : Int)) := by simpa using hhi
+    simp [h1, h2]
+  | negSucc n =>
+    have hd : ∀ c ∈ Nat.toDigits 10 (n + 1), Char.isDigit c = true :=
+      fun c hc => Nat.isDigit_of_mem_toDigits (by decide) (by decide) hc
+    obtain ⟨ht, hdr⟩ := takeWhile_all Char.isDigit _ hd
+    have hne : Nat.toDigits 10 (n + 1) ≠ [] := Nat.toDigits_ne_nil
+    have hE : (Nat.toDigits 10 (n + 1)).isEmpty = false := by
+      cases hl : Nat.toDigits 10 (n + 1) with
+      | nil => exact absurd hl hne
+      | cons _ _ => rfl
+    have hneg : lo < 0 := lt_of_le_of_lt hlo (Int.negSucc_lt_zero n)
+    have hv : -((n + 1 : Nat) : Int) = Int.negSucc n := by simp [Int.negSucc_eq]
+    simp only [decimal, parseInt, hneg, decide_true, List.head?_cons, beq_self_eq_true, Bool.and_self,
+      ↓reduceIte, List.drop_succ_cons, List.drop_zero, ht, hdr, hE, digitsVal_toDigits, hv]
+    have h1 : ¬ (Int.negSucc n < lo) := by simpa using hlo
+    have h2 : ¬ (hi < Int.negSucc n) := by simpa using hhi
+    simp [h1, h2]
+
+/-- Hence an integer field set to the decimal text of any representable value holds exactly
+    that value. -/
+theorem int_field_exact (lo hi v : Int) (hlo : lo ≤ v) (hhi : v ≤ hi) :
+    setLeaf env cfg pr (.int lo hi) [] (decimal v) = (some (.i v), none) :=
+  leaf_int_exact env cfg pr lo hi (decimal v) v (parseInt_decimal lo hi v hlo hhi)
 
 /-- Bad units: the number of the first component parses, the unit token is not in the table. -/
 theorem bad_units_rejected (res : Nat) (acc : Int) (s : Str) (v : R) (rest : Str)
@@ -1758,6 +1836,11 @@ example : (parseDuration durCfg 1 exDec 7 0 "1h30xyz".toList).2 = some .durUnits
     (by decide) (by decide +kernel)⟩
 
 /-! ### leaf setters on the generated tables -/
+example : setLeaf env durCfg exDec (.int (-2147483648) 2147483647) [] "-2147483648".toList =
+    (some (.i (-2147483648)), none) := by
+  have h := int_field_exact env durCfg exDec (-2147483648) 2147483647 (-2147483648) (by decide) (by decide)
+  rwa [show decimal (-2147483648) = "-2147483648".toList from by decide +kernel] at h
+
 example : pieces ("1,2.5,,-3".toList.count ',' + 1) "1,2.5,,-3".toList =
     ["1".toList, "2.5".toList, [], "-3".toList] := by decide
 
